@@ -42,7 +42,9 @@ func (f *SymbolFunction) Call(s *slip.Scope, args slip.List, depth int) slip.Obj
 	if !ok {
 		slip.TypePanic(s, depth, "symbol", args[0], "symbol")
 	}
-	fn := slip.CurrentPackage.GetFunc(string(sym))
+	// FindFunc resolves a package qualified name (pkg:name, pkg::name) the way
+	// a call of the function does.
+	fn := slip.FindFunc(string(sym))
 	if fn == nil {
 		slip.UndefinedFunctionPanic(s, depth, sym, "The function %s:%s is undefined.", slip.CurrentPackage.Name, sym)
 	}
